@@ -23,7 +23,7 @@ PROP = {
     "residue": "the theorem asks for first-order constants in the SOURCE program (side_ok): programs with host-registered closure constants are outside; built-ins outside coq/Sem/Lib.v are left alone by the optimizer model (the run skips those trees); the conclusion is up to the value relation on results that contain closures (equality on first-order outcomes)",
     "correspondence_only": ["the implementation's counters of the harness functions tick/ptick (per evaluation with and without the optimizer, and 0 during Generate) are compared by the Go oracle: this ties the events of the trace model (C02_optimize_preserves_trace, C02_optimize_preserves_call_counts, C02_generate_runs_no_host_call_*) to the code; programs in which a callback of a built-in method makes a host call are outside the trace model (Unsup there) and rest on the Go oracle alone",
                             "AST equality between the model's optimizer and the real one is not compared node by node; the model is tied through the outcomes of the optimized program",
-                            "built-ins outside the pool of coq/Sem/Lib.v: the optimizer model leaves them alone (counted as not followable)"],
+                            "built-ins outside the pool of coq/Sem/Lib.v + coq/Sem/StrLib.v: the optimizer model leaves them alone (counted as not followable); since work package semlib the pool has the first-order string methods (trim toLower toUpper contains indexOf split cut replace behind behindList toInt; non-ASCII trim/case conversion stays outside), list visit eval set and closure args, so folds of these methods on constant receivers are followed by the model and covered by C02_optimize_sound_*"],
 }
 
 MANIFEST = {
